@@ -31,6 +31,14 @@ func genC10(g *Gen, tier string) *Program {
 		c.Prefix = "pre"
 		c.RootTags = map[string]string{"env": "t"}
 	}
+	if g.Bool(25) {
+		// F12: the wall clock is stepped (NTP correction, VM resume) while
+		// stopwatches run and calls are in progress; elapsed time is what the
+		// monotonic clock says
+		for k := g.Range(1, 3); k > 0; k-- {
+			c.WallSteps = append(c.WallSteps, [2]int64{pick(g, int64(1), int64(3e8), int64(75e7), int64(12e8), int64(25e8)), pick(g, int64(-3600e9), int64(3600e9), int64(-2e9), int64(5e9), int64(-86400e9))})
+		}
+	}
 	nTasks := g.Range(1, 3)
 	maxOps := 8
 	if tier == "thorough" {
